@@ -122,6 +122,15 @@ func (t *KernMethod) TransferGovernTokens(ctx contract.KContext) (*contract.Resp
 	}
 	senderBalance.TotalBalance.Sub(senderBalance.TotalBalance, amount)
 
+	// 更新sender余额 (written before the receiver is read, so that a transfer to
+	// oneself reads the debited record back and stays balance-neutral)
+	senderBalanceBuf, _ := json.Marshal(senderBalance)
+	senderKey := utils.MakeAccountBalanceKey(sender)
+	err = ctx.Put(utils.GetGovernTokenBucket(), []byte(senderKey), senderBalanceBuf)
+	if err != nil {
+		return nil, fmt.Errorf("transfer gov tokens failed, update sender's balance")
+	}
+
 	// 查询receiver余额并更新: an existing receiver keeps its whole record
 	// (total and locked balances), only the total grows by amount
 	receiverBalance := utils.NewGovernTokenBalance()
@@ -134,14 +143,6 @@ func (t *KernMethod) TransferGovernTokens(ctx contract.KContext) (*contract.Resp
 		}
 	}
 	receiverBalance.TotalBalance.Add(receiverBalance.TotalBalance, amount)
-
-	// 更新sender余额
-	senderBalanceBuf, _ := json.Marshal(senderBalance)
-	senderKey := utils.MakeAccountBalanceKey(sender)
-	err = ctx.Put(utils.GetGovernTokenBucket(), []byte(senderKey), senderBalanceBuf)
-	if err != nil {
-		return nil, fmt.Errorf("transfer gov tokens failed, update sender's balance")
-	}
 
 	// 更新receiver余额
 	receiverBalanceBuf, _ = json.Marshal(receiverBalance)
